@@ -8,7 +8,7 @@ from concurrent.futures import ThreadPoolExecutor
 from . import tlc
 
 
-def validate(ctx, module, header, events, nshards=16, timeout=1700, min_per_shard=20, cfg_extra="", name=None, heap=None):
+def validate(ctx, module, header, events, nshards=16, timeout=3400, min_per_shard=20, cfg_extra="", name=None, heap=None):
     """Each event must carry a unique "id".  Returns {id: clause} for rejected events.
 
     The trace spec must define TraceSpec, Done (POSTCONDITION) and print "@@{json}" lines with
